@@ -157,3 +157,32 @@ impl Property for P {
         0.2
     }
 }
+
+pub fn decode(data: &[u8]) -> Case {
+    let mut r = crate::fuzzdec::Reader::new(data);
+    let mode = r.u8();
+    let pi = super::c15::PREFIX_INDENTS;
+    let o1 = OptSpec {
+        width: r.u8() as usize % 24,
+        initial_indent: pi[r.pick(pi.len())].to_string(),
+        subsequent_indent: pi[r.pick(pi.len())].to_string(),
+        break_words: false,
+        algo: if crate::case::FULL && mode & 2 == 2 {
+            crate::case::Algo::Optimal(crate::case::PenSpec::DEFAULT)
+        } else {
+            crate::case::Algo::FirstFit
+        },
+        sep: crate::case::Sep::Ascii,
+        split: crate::case::Split::None,
+        crlf: mode & 4 == 4,
+    };
+    let w1b = r.u8() as usize % 24;
+    let o2 = crate::fuzzdec::optspec(&mut r, true, true);
+    let trailing = mode & 8 == 8;
+    let v = super::c15::VOCAB;
+    let mut words: Vec<String> = r.rest().iter().take(30).map(|b| v[*b as usize % v.len()].to_string()).collect();
+    if words.len() < 2 {
+        words = vec!["a".into(), "bb".into(), "ccc".into()];
+    }
+    Case { words, o1, w1b, o2, trailing }
+}
